@@ -21,7 +21,14 @@
 static inline int mzd_compare_rows_revlex(const mzd_t *A, rci_t a, rci_t b) {
   word const *rowa = mzd_row_const(A, a);
   word const *rowb = mzd_row_const(A, b);
-  for (wi_t j = A->width - 1; j >= 0; j--) {
+  wi_t const last  = A->width - 1;
+  if (last < 0) return 1;
+  /* the last word may hold bits which do not belong to A (windows) */
+  word const lasta = rowa[last] & A->high_bitmask;
+  word const lastb = rowb[last] & A->high_bitmask;
+  if (lasta < lastb) return 0;
+  if (lasta > lastb) return 1;
+  for (wi_t j = last - 1; j >= 0; j--) {
     if (rowa[j] < rowb[j]) return 0;
     if (rowa[j] > rowb[j]) return 1;
   }
